@@ -8,8 +8,8 @@
     Machine width of the two counters (u64, wrapping [fetch_add]) is not modelled: 2^64 begins or
     commits are out of reach.  [mark_committed] (recovery only) is not modelled.
     No proofs in this file. *)
-From Coq Require Import ZArith List Bool.
-Import ListNotations.
+From Coq Require Export ZArith List Bool.
+Export ListNotations.
 Open Scope Z_scope.
 
 (** ** types *)
